@@ -681,6 +681,8 @@ func routeHandler(id int, mutate bool) rux.HandlerFunc {
 	}
 }
 
+var sharedCachingOpts = map[int]func(*rux.Router){}
+
 func newRouter(mask, cap int, icpt string, caching bool) *rux.Router {
 	var opts []func(*rux.Router)
 	if icpt != "" && mask&64 != 0 { // options are applied in order: the intercept path may come first
@@ -699,7 +701,14 @@ func newRouter(mask, cap int, icpt string, caching bool) *rux.Router {
 		opts = append(opts, rux.UseEncodedPath)
 	}
 	if caching {
-		opts = append(opts, rux.CachingWithNum(uint16(cap)))
+		// ONE option value per capacity for all routers of the process (an application's shared `opts` slice): every
+		// router still gets a cache of its own
+		opt, ok := sharedCachingOpts[cap]
+		if !ok {
+			opt = rux.CachingWithNum(uint16(cap))
+			sharedCachingOpts[cap] = opt
+		}
+		opts = append(opts, opt)
 	}
 	if icpt != "" && mask&64 == 0 {
 		opts = append(opts, rux.InterceptAll(icpt))
